@@ -102,6 +102,9 @@ pub fn c12_mupluslambda_2_1_mu1() { mu_plus_lambda(2, 1, 1) }
 /// @verif anchor=MuPlusLambda::replace bound="2 parents, 1 offspring; mu = 2; all tags/objectives incl. ties and +inf"
 #[cfg_attr(kani, kani::proof)] #[cfg_attr(kani, kani::unwind(8))]
 pub fn c12_mupluslambda_2_1_mu2() { mu_plus_lambda(2, 1, 2) }
+/// @verif anchor=MuPlusLambda::replace bound="1 parent, 1 offspring; mu = 3 (room for everybody); all tags/objectives incl. ties and +inf"
+#[cfg_attr(kani, kani::proof)] #[cfg_attr(kani, kani::unwind(8))]
+pub fn c12_mupluslambda_1_1_mu3() { mu_plus_lambda(1, 1, 3) }
 /// @verif anchor=MuPlusLambda::replace tier=thorough bound="2 parents, 1 offspring; mu in {0, 3, 4}"
 #[cfg_attr(kani, kani::proof)] #[cfg_attr(kani, kani::unwind(8))]
 pub fn c12_mupluslambda_2_1_rest() { mu_plus_lambda(2, 1, 0); mu_plus_lambda(2, 1, 3); mu_plus_lambda(2, 1, 4); }
